@@ -609,6 +609,40 @@ def enumerate_to_index(fn, types):
             lp["from_zip"] = True
             n += 1
             continue
+        if (it.get("k") == "mcall" and it.get("name") in ("iter", "iter_mut") and not it["args"] and _pure_place_idx(it["recv"])
+                and any(y.get("k") == "mcall" and y.get("name") == "push" for y in _walk(lp["body"]))):
+            # `for e in X.iter() { .. out.push(..) }` over a pure place: the index form `for i in 0..X.len()` with e := X[i] (the element-by-element
+            # construction of `out` is then an indexed store for the loop-nest extractor)
+            pe = lp["pat"]
+            while pe.get("k") in ("ref", "deref"):
+                pe = pe["p"]
+            X = it["recv"]
+            xr = _root_of_place(X)
+            if pe.get("k") == "bind" and not pe.get("sub") and xr is not None and xr["hid"] not in _assigned_locals([lp["body"]]):
+                _ZIP[0] += 1
+                ih = 9000000 + _ZIP[0]
+                idx_local = {"k": "local", "name": "_zi%d" % _ZIP[0], "hid": ih, "t": usize_t, "line": lp.get("line")}
+                rep1 = {pe["hid"]: {"k": "index", "b": copy.deepcopy(X), "i": idx_local, "t": pe.get("t"), "line": lp.get("line")}}
+
+                def subst1(x):
+                    if isinstance(x, list):
+                        return [subst1(v) for v in x]
+                    if not isinstance(x, dict):
+                        return x
+                    if x.get("k") == "local" and x.get("hid") in rep1:
+                        return copy.deepcopy(rep1[x["hid"]])
+                    for k_, v in list(x.items()):
+                        if isinstance(v, (dict, list)):
+                            x[k_] = subst1(v)
+                    return x
+                lp["body"] = subst1(lp["body"])
+                lp["pat"] = {"k": "bind", "name": "_zi%d" % _ZIP[0], "hid": ih, "mode": "BindingMode(No, Not)", "t": usize_t}
+                lp["iter"] = {"k": "struct", "path": "std::ops::Range", "mac": "Desugaring(RangeExpr)", "line": lp.get("line"),
+                              "fs": [["start", {"k": "lit", "v": "0", "t": usize_t}],
+                                     ["end", {"k": "mcall", "name": "len", "callee": "std::vec::Vec::<T, A>::len", "recv": copy.deepcopy(X), "args": [], "t": usize_t, "line": lp.get("line")}]]}
+                lp["from_iter"] = True
+                n += 1
+            continue
         if not (it.get("k") == "mcall" and it.get("name") == "enumerate" and not it["args"]):
             continue
         src = it["recv"]
@@ -2240,6 +2274,17 @@ def push_nests_to_index(fn, types):
                 arg = _unblk(last["args"][0])
                 cell = {"k": "index", "b": vloc, "i": ivar, "t": arg.get("t"), "line": last.get("line")}
                 inner_ext = None
+                if arg.get("k") == "local" and arg["hid"] not in allocs:
+                    # the pushed local was allocated at its full extent (`vec![vec![0.0; w]; h]`) and filled by indexed stores: the same cell
+                    for x_ in items[:-1]:
+                        if x_.get("k") == "let" and x_["pat"].get("k") == "bind" and x_["pat"]["hid"] == arg["hid"] and x_.get("init") is not None:
+                            e_ = _unblk(x_["init"])
+                            exts_ = []
+                            while e_ is not None and e_.get("k") == "call" and str(e_.get("callee", "")).endswith("from_elem") and len(e_["args"]) == 2:
+                                exts_.append(e_["args"][1])
+                                e_ = _unblk(e_["args"][0])
+                            if exts_ and e_ is not None and e_.get("k") == "lit":
+                                allocs[arg["hid"]] = exts_
                 if arg.get("k") == "local" and arg["hid"] in allocs:
                     rdecl = [k_ for k_, x_ in enumerate(items[:-1]) if x_.get("k") == "let" and x_["pat"].get("k") == "bind" and x_["pat"]["hid"] == arg["hid"]]
                     bound = binds_under(lp)
